@@ -29,7 +29,7 @@ MODES = ['sym', 'num', 'arr', 'reslike', 'reslike-num']
 
 
 def floors(tier):
-    f = {'distinct_nontrivial': 600 if tier == 'quick' else 10000, 'homomorphism_blade_pairs': 20000, 'first_column_checks': 1500,
+    f = {'distinct_nontrivial': 600 if tier == 'quick' else 60000, 'homomorphism_blade_pairs': 20000, 'first_column_checks': 1500,
          'frommatrix_round_trips': 300, 'linearity_checks': 300, 'rank_checks': 80, 'expr_cases': 300,
          'custom_basis_algebras': 20, 'signature_orderings': 60}
     for m in MODES:
@@ -47,12 +47,12 @@ def plan(tier, seed):
                  {'p': 3, 'q': 0, 'r': 1}, {'signature': [-1, 1, 0]}, gen.random_custom_cfg(rng, 3)]
         per = 8
     else:
-        cfgs = gen.sig_orderings(1, 4) + rng.sample(gen.sig_orderings(5, 5), 60) + gen.pqr_all(5, 5)
-        cfgs += [gen.random_custom_cfg(rng, rng.choice((2, 3, 3, 4, 4))) for _ in range(200)] + gen.NAMED
+        cfgs = gen.sig_orderings(1, 5) + gen.pqr_all(5, 5)
+        cfgs += [gen.random_custom_cfg(rng, rng.choice((2, 3, 3, 4, 4))) for _ in range(1500)] + gen.NAMED
         for b in gen.all_custom_bases(2, 1) + gen.all_custom_bases(2, 0):
             cfgs.append({'signature': [1, -1], 'basis': b})
         ecfgs = gen.sig_orderings(2, 3) + gen.NAMED[:2] + [gen.random_custom_cfg(rng, 3) for _ in range(10)] + gen.pqr_all(4, 4)[::3]
-        per = 10
+        per = 120
     U = [{'kind': 'asmatrix', 'cfg': c} for c in cfgs]
     for c in ecfgs:
         for e in EXPRS:
